@@ -124,8 +124,11 @@ class Judge:
         except UnicodeDecodeError:
             got = None
         if got == want:
-            if real_b != units_of(set()):
+            if real_b != units_of(self.dev):         # the as-coded model must account for every byte
                 self.drift += 1
+                if self.drift <= 3:
+                    ck.note("drift: %s bytes of %s (codec %s) differ from the as-coded model but decode to the same characters"
+                            % (conv, what, codec))
             return True
         if self.dev and real_b == units_of(self.dev):
             hit = [d for d in sorted(self.dev) if units_of({d}) == real_b] or sorted(self.dev)
